@@ -37,7 +37,8 @@ extern "C" void h_op()
     djinterop::track t{std::make_shared<v2::track_impl>(fx.lib, tid)};
     djinterop::crate c{std::make_shared<v2::crate_impl>(fx.lib, cid)};
     djinterop::crate c2{std::make_shared<v2::crate_impl>(fx.lib, cid2)};
-    int idx = (int)verif_range_u32(0, 7, "slot");
+    // slot index: 0..7 normally; with the "wide" run parameter every int from -1 to 9 (one before the first, two past the last slot)
+    int idx = verif_param("wide") ? (int)verif_range_u32(0, 10, "slot+1") - 1 : (int)verif_range_u32(0, 7, "slot");
     uint64_t op = verif_param("op");
     int threw = 0;
     verif_reach("call");
@@ -72,7 +73,12 @@ extern "C" void h_op()
             case 106: t.set_comment(OS("v")); break;                case 107: t.set_composer(OS("v")); break;
             case 108: t.set_duration(std::chrono::milliseconds{(int64_t)verif_range_u64(0, 1ull << 40, "v")}); break;
             case 109: t.set_genre(OS("v")); break;                  case 110: t.set_hot_cue_at(idx, a_cue()); break;
-            case 111: t.set_hot_cues({a_cue(), std::nullopt, a_cue()}); break;
+            case 111:
+            {
+                std::vector<std::optional<hot_cue>> cs;
+                for (uint64_t i = 0; i < (verif_param("wide") ? verif_param("count") : 3); ++i) { if (i % 2) cs.push_back(std::nullopt); else cs.push_back(a_cue()); }
+                t.set_hot_cues(cs); break;
+            }
             case 112: t.set_key(musical_key::d_minor); break;       case 113: t.set_last_played_at(tp_t{std::chrono::seconds{(int64_t)verif_range_u64(0, 1ull << 32, "v")}}); break;
             case 114: t.set_loop_at(idx, a_loop()); break;          case 115: t.set_loops({a_loop(), std::nullopt}); break;
             case 116: t.set_main_cue(D("v")); break;       case 117: t.set_publisher(OS("v")); break;
